@@ -105,7 +105,11 @@ impl From<Error> for io::Error {
             err
         } else {
             match l.classify() {
-                Category::Io => unreachable!(),
+                Category::Io => match *l.0 {
+                    // A read failure reported by the parser.
+                    ErrorImpl::Parse(e) => e.into(),
+                    _ => unreachable!(),
+                },
                 Category::Syntax | Category::Data => io::Error::new(io::ErrorKind::InvalidData, l),
                 Category::Eof => io::Error::new(io::ErrorKind::UnexpectedEof, l),
             }
